@@ -168,6 +168,20 @@ def guard_shared(path, guards, log):
     stripped = _strip_map(text)
     edits = []
     for obj, lock in guards.items():
+        if obj.startswith("->"):
+            # member of a shared structure: guard the whole access path
+            # X->member (X = identifier followed by ->field / [index] / .field)
+            pat = re.compile(r'[A-Za-z_]\w*(?:(?:->|\.)\w+|\[[^\]\n]*\])*->' + re.escape(obj[2:]) + r'\b')
+            n = 0
+            for m in pat.finditer(stripped):
+                ls = stripped.rfind('\n', 0, m.start()) + 1
+                line = stripped[ls:stripped.find('\n', m.start())]
+                if line.lstrip().startswith('#'):
+                    continue
+                edits.append((m.start(), text[m.start():m.end()], lock))
+                n += 1
+            log.append({"file": os.path.basename(path), "guarded": obj, "lock": lock, "uses": n})
+            continue
         for m in re.finditer(r'\b' + re.escape(obj) + r'\b', stripped):
             ls = stripped.rfind('\n', 0, m.start()) + 1
             line = stripped[ls:stripped.find('\n', m.start())]
